@@ -75,8 +75,10 @@ func (w *world) howFor(t int, key string) int {
 	return 2
 }
 
-// dataEOFReader hands out its data in one Read together with io.EOF (n > 0 and io.EOF in the
-// same call, which the io.Reader contract allows: HTTP bodies with a Content-Length do it).
+// dataEOFReader hands out its data in short reads of at most 1000 bytes (so that io.Copy reuses
+// its buffer between the Writes it makes: a writer that keeps the slice it was given sees it
+// overwritten) and the last of them together with io.EOF (n > 0 and io.EOF in the same call,
+// which the io.Reader contract allows: HTTP bodies with a Content-Length do it).
 type dataEOFReader struct {
 	b    []byte
 	done bool
@@ -86,6 +88,9 @@ func (r *dataEOFReader) Read(p []byte) (int, error) {
 	if r.done {
 		return 0, io.EOF
 	}
+	if len(p) > 1000 {
+		p = p[:1000]
+	}
 	n := copy(p, r.b)
 	r.b = r.b[n:]
 	if len(r.b) == 0 {
@@ -93,6 +98,13 @@ func (r *dataEOFReader) Read(p []byte) (int, error) {
 		return n, io.EOF
 	}
 	return n, nil
+}
+
+// scribble overwrites a buffer the harness has handed to a Write that has returned.
+func scribble(b []byte) {
+	for i := range b {
+		b[i] = 0x5a
+	}
 }
 
 type pendingOp struct {
@@ -245,14 +257,18 @@ func (w *world) doSet(t int, key string, val []byte, how int) error {
 		if w.storerAhead[key] {
 			nd.Quiescent()
 		}
-		// split into two writes when possible
+		// split into two writes when possible; both come from one scratch buffer that is
+		// overwritten as soon as Write has returned (an io.Writer must not keep the slice)
 		h := len(val) / 2
-		_, err = f.Write(val[:h])
+		scratch := make([]byte, len(val)-h)
+		_, err = f.Write(scratch[:copy(scratch, val[:h])])
+		scribble(scratch)
 		if w.storerAhead[key] {
 			nd.Quiescent()
 		}
 		if err == nil {
-			_, err = f.Write(val[h:])
+			_, err = f.Write(scratch[:copy(scratch, val[h:])])
+			scribble(scratch)
 		}
 		cerr = f.Close()
 		if err == nil {
